@@ -14,11 +14,19 @@ from ctx import MachineryError
 
 
 def run_order(order):
-    p = subprocess.run([PY, str(VERIF / "harness" / "importshim.py"), str(REPO)] + list(order),
+    """order: module names (optionally prefixed with a statement form, see importshim.py); a first element "-O" / "-OO" runs
+    the fresh interpreter at that optimisation level (asserts / docstrings stripped)."""
+    flags = []
+    order = list(order)
+    while order and order[0] in ("-O", "-OO"):
+        flags.append(order.pop(0))
+    p = subprocess.run([PY] + flags + [str(VERIF / "harness" / "importshim.py"), str(REPO)] + order,
                        capture_output=True, text=True, env=child_env(), timeout=120)
     if p.returncode != 0 or not p.stdout.strip():
         raise MachineryError("import shim failed: " + p.stderr[-2000:])
-    return json.loads(p.stdout.strip().splitlines()[-1])
+    out = json.loads(p.stdout.strip().splitlines()[-1])
+    out["flags"] = flags
+    return out
 
 
 def _records(ctx, orders, mods):
@@ -82,6 +90,10 @@ def run(ctx):
         p = list(mods)
         r.shuffle(p)
         orders.append([r.choice(["", "f:", "d:", "a:"]) + m for m in p])
+    # ... nor the interpreter's optimisation level: every module first, and two full orders, under -O and -OO
+    for fl in ("-O", "-OO"):
+        orders += [[fl, m] for m in mods]
+        orders += [[fl] + list(mods), [fl] + list(reversed(mods))]
     if model_cex:
         orders.append(model_cex)  # a model-level counterexample is reproduced before it is reported
     results, full = _records(ctx, orders, mods)
@@ -101,7 +113,7 @@ def run(ctx):
             tab_d, ref_d = "", ""
         recs.append({"id": f"o{k}", "props": ["C20"], "order": res_["order"], "events": res_["events"],
                      "ok": res_["ok"], "table": tab_d, "ref": ref_d, "error": res_["error"],
-                     "stmts": [(f + ":" if f else "") + m for f, m in zip(res_.get("forms", []), res_["order"])]})
+                     "stmts": res_.get("flags", []) + [(f + ":" if f else "") + m for f, m in zip(res_.get("forms", []), res_["order"])]})
     ctx.sample({"order": results[0]["order"], "events": results[0]["events"], "ok": results[0]["ok"],
                 "error": results[0]["error"]})
     ctx.sample({"order": results[-1]["order"], "ok": results[-1]["ok"], "events": results[-1]["events"][:8]})
